@@ -1,4 +1,6 @@
 """C17 run plan (DESIGN.md §4 C17)."""
+import concurrent.futures
+
 import driver
 
 
@@ -9,15 +11,19 @@ def run(ctx):
         ctx.run_shards(b, "TestVerifC17", 1, 600, "c17")
     else:
         quick = ctx.tier == "quick"
+        ex = concurrent.futures.ThreadPoolExecutor(max_workers=1)
+        aged = ex.submit(ctx.run_shards, b, "TestVerifC17", 1, 1500, "c17aged", {"VERIF_C17_PART": "aged"})
         ctx.run_shards(b, "TestVerifC17", 32 if quick else 38, 900 if quick else 3400, "c17")
         # the tcp and ws case lists once more through PipeData's traffic-dump copy path
         ctx.run_shards(b, "TestVerifC17", 2, 900, "c17dump", extra_env={"SOCKETACE_PIPE_DEBUG": "1", "VERIF_CARRIERS": "tcp,ws", "VERIF_TIER": "quick"})
         br = ctx.build(pkg, race=True)
         ctx.run_shards(br, "TestVerifC17", 11, 1500 if quick else 3400, "c17race", extra_env={"VERIF_TIER": "quick", "VERIF_C17_NOLATE": "1"}, race=True)
+        aged.result()
+        ex.shutdown()
     return driver.finish(
         ctx, "exploration",
         "for every carrier x closer {application, target} x payload {0,1,4096,32768,65537,1MiB,3MiB} x {full close right after the last Write returns, "
         "half-close then read to the end} x {0, 3 other busy logical connections on the session} x {other end idle, other end itself writing}: the other end must "
         "read exactly the keyed payload and then end-of-stream, and after a half-close the closer's own read side must terminate once the other end closes; delays "
-        "{none, yield, 5 ms} at the pipe.beforeCloseUp/Down hooks widen the last-write/close race; late close (35/65 s of silence, then 256 KiB and close); the tcp and ws case lists once more with SOCKETACE_PIPE_DEBUG=1 (traffic-dump copy path); 4000 (thorough 20000) short logical connections in rapid succession, 8 at a time, on tcp (both closers), ws and unix: 65537 bytes in 4 KiB writes, close at once (the last data frame and the FIN travel back to back); 150 (thorough 1000) connections on tcp, ws, udp that the application opens and closes at once without writing (the target must see each: a connection, no data, end-of-stream); a write and close while a sibling connection of the session holds 3 MiB that its target does not read (under the shared 4 MiB receive buffer); a paced 1 MiB transfer that ends with an orderly close while a sibling connection of the same session is aborted (closed with unread data pending / reset); stall rule instead of deadlines; repeated under -race.",
+        "{none, yield, 5 ms} at the pipe.beforeCloseUp/Down hooks widen the last-write/close race; late close (35/65 s of silence, then 256 KiB and close); the tcp and ws case lists once more with SOCKETACE_PIPE_DEBUG=1 (traffic-dump copy path); 4000 (thorough 20000) short logical connections in rapid succession, 8 at a time, on tcp (both closers), ws and unix: 65537 bytes in 4 KiB writes, close at once (the last data frame and the FIN travel back to back); 150 (thorough 1000) connections on tcp, ws, udp that the application opens and closes at once without writing (the target must see each: a connection, no data, end-of-stream); a write and close while a sibling connection of the session holds 3 MiB that its target does not read (under the shared 4 MiB receive buffer); a paced 1 MiB transfer that ends with an orderly close while a sibling connection of the same session is aborted (closed with unread data pending / reset); on the dns carrier a session whose upstream packet counter has gone past 65535 (one connection writes 14 MiB and closes, then a write and close in each direction on the same session); stall rule instead of deadlines; repeated under -race.",
         ["the harness holds both ends of the logical connection", "bounded time is restated by the stall rule (W=20s quick / 45s thorough without any byte of progress)"])
